@@ -227,6 +227,68 @@ def run(run: common.Run):
         run.sample(dict(case={k: case[k] for k in ('i', 'model', 'kernel', 'halvings', 'pattern', 'upsampling')},
                         proc_ref=proc_ref, kept=int(expect.sum()), source_valid=int(sv.sum())), 4)
     degenerate_leg(run, tmp)
+    multiband_leg(run, tmp)
+
+
+def multiband_leg(run, tmp):
+    """
+    Several bands whose validity patterns differ (numeric nodata, band-specific holes in source and reference): with
+    mask_partial the mask of band k of a multi-band run is the mask of the single-band run on band k alone (which the main
+    leg compares with the definition) - the partial mask is a per-band quantity.  Both processing grids, 1 and several blocks.
+    """
+    from homonim.errors import BlockSizeError
+    n = 3 if run.quick() else 18
+    for k in range(n):
+        rng = run.rng(f'multiband{k}')
+        want_ref = k % 3 != 2
+        for _ in range(100):
+            src, ref = rasters.pair_geometry(rng, 'dyadic', 'auto', max_src=30, margin=(1, 3), avoid_aligned_edges=True)
+            if (src.px < ref.px) == want_ref and src.px != ref.px and src.w >= 12 and src.h >= 12:
+                break
+        else:
+            continue
+        if not want_ref:
+            pass
+        nb = 2 + k % 2
+        s = np.array([[[rng.randint(20, 200) for _ in range(src.w)] for _ in range(src.h)] for _ in range(nb)], float)
+        r = np.array([[[rng.randint(30, 150) for _ in range(ref.w)] for _ in range(ref.h)] for _ in range(nb)], float)
+        # band-specific holes, written as a numeric nodata value
+        for arr, g in ((s, src), (r, ref)):
+            for b in range(nb):
+                for _ in range(1 + b):
+                    rr, cc = rng.randrange(1, g.h - 1), rng.randrange(1, g.w - 1)
+                    arr[b, rr:rr + 1 + b % 2, cc:cc + 2] = -9999.0
+        sp, rp = tmp / f'c17mb_s{k}.tif', tmp / f'c17mb_r{k}.tif'
+        rasters.write_tif(sp, src, s, dtype='float32', nodata=-9999.0)
+        rasters.write_tif(rp, ref, r, dtype='float32', nodata=-9999.0)
+        model, kern = MODELS[k % 3], [(3, 3), (1, 3), (5, 3)][k % 3]
+        proc_ref = src.px <= ref.px
+        for hv in (0, 2):
+            case = dict(i=900_000 + 10 * k + hv, op='multi-band partial mask', nb=nb, model=model, kernel=kern, halvings=hv,
+                        src=src.to_dict(), ref=ref.to_dict(), proc='ref' if proc_ref else 'src')
+            kw = dict(model=model, kernel_shape=kern, param=False, threads=1 + k % 2, model_config=dict(mask_partial=True))
+            try:
+                multi, hv2 = fusion.run_fuse_blocks(hv, src, ref, proc_ref, sp, rp, tmp / 'c17mb_multi.tif', **kw)
+                ph, pw = fusion.proc_window_shape(src, ref, proc_ref)
+                mbm = fusion.block_mem_for(hv2, ph, pw, src.px, ref.px, proc_ref)
+                singles = [fusion.run_fuse(sp, rp, tmp / 'c17mb_single.tif', src_bands=(b + 1,), ref_bands=(b + 1,), force=True,
+                                           max_block_mem=mbm, **kw) for b in range(nb)]
+            except BlockSizeError:
+                continue
+            except Exception as ex:
+                run.fail(case, f'fusion raised {type(ex).__name__}: {ex}', signature=dict(kind='raises'))
+                continue
+            run.evaluations += 1
+            run.hist[f"multi-band partial masks: proc={'ref' if proc_ref else 'src'}"] += 1
+            run.nontrivial.add(('multiband', k, hv))
+            for b in range(nb):
+                mm, sm = np.isfinite(multi.corr[b]), np.isfinite(singles[b].corr[0])
+                if not np.array_equal(mm, sm):
+                    d = np.argwhere(mm != sm)
+                    run.fail(case, f'band {b + 1} of {nb}: the partial mask of the multi-band run differs from the single-band run on that '
+                             f'band at {len(d)} pixels, e.g. {d[0].tolist()} (multi-band valid={bool(mm[tuple(d[0])])})',
+                             signature=dict(kind='band-mask', band=b + 1))
+                    break
 
 
 def degenerate_leg(run, tmp):
